@@ -261,13 +261,16 @@ def r18_356(ctx):
     ins = [(bb, t) for bb, t in b.iter_calls(callee=INS_LINE)]
     pvs = [bb for bb, t in b.iter_calls(callee=SET_PV)]
     absb = abs_calls(b)
+    # which argument of the sub-search is the position searched: by parameter type, not position
+    bpar = params_by_type(f.body(ABS), "&board::BoardState")
+    bidx = bpar[0] - 1 if len(bpar) == 1 else 2
     ok = False
     why = "insert_into_cur_line(0, mov) then set_principle_variation() between the sub-search and the info line"
     for ibb, it in ins:
         ia = ex.call_args(ibb)
         ply0 = ia[1] == ("const", 0)
         mov = strip_refs(ia[2])
-        same_mov = any(strip_refs(ex.call_args(a)[2]) == mov for a in absb)
+        same_mov = any(strip_refs(ex.call_args(a)[bidx]) == mov for a in absb)
         order = any(b.node_dominates(a, ibb) for a in absb) and any(b.node_dominates(ibb, p) and b.node_dominates(p, cbb) for p in pvs)
         if ply0 and same_mov and order:
             ok = True
